@@ -100,6 +100,27 @@ Definition c01_wild_mono_statement : Prop :=
     lib_mono_b (cfg_nofail cfg) (fs_init m) h = true ->
     c01_statement cfg m h.
 
+(* the same two statements in DISCOVERY mode (no configured LIB, hold-until-LIB, as the hub uses): every
+   well-formed history, no condition on the declarations.  The LIB the stream is rooted at is the one carried by
+   the first delivered event (root_lib of Spec/Consumer.v) *)
+Definition c01_wild_discovery_discipline_statement : Prop :=
+  forall cfg h,
+    c_hold cfg = true -> c_incl cfg = false ->
+    f_new (c_filter cfg) = true -> f_undo (c_filter cfg) = true ->
+    wf_b h = true ->
+    let t := fk_run cfg (fs_init LNone) h in
+    c01_discipline_b LNone t = true /\ c01_error_b (c_fail_at cfg) 0 t = true /\
+    Forall (fun x => snd x = ROk \/ snd x = RHandlerErr) t /\
+    (c_fail_at cfg = None -> Forall (fun x => snd x = ROk) t /\ length t = length h).
+
+Definition c01_wild_discovery_mono_statement : Prop :=
+  forall cfg h,
+    c_hold cfg = true -> c_incl cfg = false ->
+    f_new (c_filter cfg) = true -> f_undo (c_filter cfg) = true ->
+    wf_b h = true ->
+    lib_mono_b (cfg_nofail cfg) (fs_init LNone) h = true ->
+    c01_statement cfg LNone h.
+
 (* the class of c01_moving_lib_roots_partial lies inside the class of c01_wild_mono_statement *)
 Definition c01_wild_mono_subsumes : Prop :=
   forall cfg r0 m h,
